@@ -170,7 +170,7 @@ impl IntoSqlBuilder for Unary {
             Unary::Member(ast_node) => ast_node.into_sql_builder(),
             Unary::NotMember { nots, member } => {
                 let nots_builder = nots.into_sql_builder()?;
-                let member_builder = member.into_sql_builder()?;
+                let member_builder = unary_operand_builder(member)?;
 
                 Ok(Box::new(UnaryOperationBuilder {
                     operator: nots_builder,
@@ -179,7 +179,7 @@ impl IntoSqlBuilder for Unary {
             }
             Unary::NegMember { negs, member } => {
                 let negs_builder = negs.into_sql_builder()?;
-                let member_builder = member.into_sql_builder()?;
+                let member_builder = unary_operand_builder(member)?;
 
                 Ok(Box::new(UnaryOperationBuilder {
                     operator: negs_builder,
@@ -187,6 +187,59 @@ impl IntoSqlBuilder for Unary {
                 }))
             }
         }
+    }
+}
+
+/// A member chain with a field access is written with a JSON arrow, an operator that binds
+/// looser than a prefix operator: as the operand of one it needs parentheses.
+fn unary_operand_builder(member: &rscel::AstNode<Member>) -> ToSqlResult<Box<dyn SqlBuilder>> {
+    let builder = member.into_sql_builder()?;
+
+    if member_is_sql_operator(member.node()) {
+        Ok(Box::new(ParensBuilder { inner: builder }))
+    } else {
+        Ok(builder)
+    }
+}
+
+fn member_is_sql_operator(member: &Member) -> bool {
+    member
+        .member
+        .iter()
+        .any(|m| matches!(m.node(), MemberPrime::MemberAccess { .. }))
+}
+
+/// Is this expression translated to an SQL operator expression without parentheses of its
+/// own (a binary operation or a JSON arrow)?
+fn expr_is_sql_operator(expr: &Expr) -> bool {
+    let or = match expr {
+        Expr::Unary(or) => or.node(),
+        _ => return false,
+    };
+    let and = match or {
+        ConditionalOr::Unary(and) => and.node(),
+        ConditionalOr::Binary { .. } => return true,
+    };
+    let relation = match and {
+        ConditionalAnd::Unary(relation) => relation.node(),
+        ConditionalAnd::Binary { .. } => return true,
+    };
+    let addition = match relation {
+        Relation::Unary(addition) => addition.node(),
+        Relation::Binary { .. } => return true,
+    };
+    let multiplication = match addition {
+        Addition::Unary(multiplication) => multiplication.node(),
+        Addition::Binary { .. } => return true,
+    };
+    let unary = match multiplication {
+        Multiplication::Unary(unary) => unary.node(),
+        Multiplication::Binary { .. } => return true,
+    };
+
+    match unary {
+        Unary::Member(member) => member_is_sql_operator(member.node()),
+        _ => false,
     }
 }
 
@@ -256,8 +309,19 @@ impl IntoSqlBuilder for Member {
                     if let Some(cast_type) = sql_type {
                         // This is a type casting operation
                         if args.len() == 1 {
+                            // `::` binds tighter than every operator: an operand that is
+                            // written with one (a binary operation, a JSON arrow) needs
+                            // parentheses to be cast as a whole
+                            let value = args.remove(0);
+                            let value: Box<dyn SqlBuilder> =
+                                if expr_is_sql_operator(call.node().exprs[0].node()) {
+                                    Box::new(ParensBuilder { inner: value })
+                                } else {
+                                    value
+                                };
+
                             return Ok(Box::new(CastBuilder {
-                                value: args.remove(0),
+                                value,
                                 cast_type: StaticSqlBuilder::boxed(cast_type),
                             }));
                         } else if args.is_empty() {
@@ -301,8 +365,22 @@ impl IntoSqlBuilder for Member {
                     });
                 }
                 MemberPrime::ArrayAccess { access } => {
+                    // a subscript binds tighter than a JSON arrow: subscripting the result
+                    // of a field access (or of a method call) needs parentheses around it
+                    // (everything since the last subscript, which is parenthesized itself)
+                    let after_field_access = self.member[..i]
+                        .iter()
+                        .rev()
+                        .take_while(|m| !matches!(m.node(), MemberPrime::ArrayAccess { .. }))
+                        .any(|m| matches!(m.node(), MemberPrime::MemberAccess { .. }));
+                    let array: Box<dyn SqlBuilder> = if after_field_access {
+                        Box::new(ParensBuilder { inner: builder })
+                    } else {
+                        builder
+                    };
+
                     builder = Box::new(ArrayAccessBuilder {
-                        array: builder,
+                        array,
                         member: access.node().into_sql_builder()?,
                     })
                 }
